@@ -44,6 +44,7 @@ type TermCtx struct {
 	tableID map[string]int
 	subst   map[*Term]*Term // concretisations learned on this path
 	nvars   int
+	HasHard bool // some multiplication/division term exists on this path
 	Vars    []*Term
 }
 
@@ -135,11 +136,19 @@ func sanitize(s string) string {
 	return sb.String()
 }
 
+var commutative = map[string]bool{"bvadd": true, "bvmul": true, "bvand": true, "bvor": true, "bvxor": true}
+
 func (c *TermCtx) mk(op string, k Kind, w int, p0, p1 int, args ...*Term) *Term {
 	for i, a := range args {
 		if s, ok := c.subst[a]; ok {
 			args[i] = s
 		}
+	}
+	if op == "bvmul" || op == "bvudiv" || op == "bvurem" || op == "bvsdiv" || op == "bvsrem" {
+		c.HasHard = true
+	}
+	if len(args) == 2 && commutative[op] && args[0].id > args[1].id {
+		args[0], args[1] = args[1], args[0]
 	}
 	return c.intern(&Term{Op: op, K: k, W: w, P0: p0, P1: p1, Args: args})
 }
@@ -489,6 +498,31 @@ func (c *TermCtx) BVCmp(op string, a, b *Term) *Term {
 	}
 	if r := c.distCmp(op, a, b); r != nil {
 		return r
+	}
+	// borrow/carry idioms: (a-b) <=u a  ⇔  b <=u a ;  (a+b) <u a  ⇔  b >u ~a
+	switch op {
+	case "bvule", "bvugt":
+		if a.Op == "bvsub" && a.Args[0] == b {
+			return c.BVCmp(op, a.Args[1], b)
+		}
+	case "bvuge", "bvult":
+		if b.Op == "bvsub" && b.Args[0] == a {
+			return c.BVCmp(op, a, b.Args[1])
+		}
+	}
+	if (op == "bvult" || op == "bvuge") && a.Op == "bvadd" {
+		var other *Term
+		if a.Args[0] == b {
+			other = a.Args[1]
+		} else if a.Args[1] == b {
+			other = a.Args[0]
+		}
+		if other != nil {
+			if op == "bvult" {
+				return c.BVCmp("bvugt", other, c.BVNot(b))
+			}
+			return c.BVCmp("bvule", other, c.BVNot(b))
+		}
 	}
 	return c.mk(op, KBool, 0, 0, 0, a, b)
 }
